@@ -1076,17 +1076,38 @@ def struct_model_line(a, handle):
 
 def model_driver(ctx, name="drv_calcore"):
     """Extracted-model driver.  vplib's staleness rule (any .v file under coq/ newer than the binary)
-    rebuilds every driver; this model depends only on the files below, so it is rebuilt only when one
-    of them is newer than the binary."""
+    rebuilds every driver; these models depend only on the files below, so the driver is rebuilt
+    (bin/setup --ocaml-only <name>) only when one of them is newer than the binary."""
     import glob
     import os
+    import fcntl
     import vplib
+    mod = name[len("drv_"):]
     exe = os.path.join(vplib.VERIF, "ocaml", "_build", name)
     deps = [os.path.join(vplib.VERIF, "ocaml", name + ".ml"),
-            os.path.join(vplib.VERIF, "ocaml", "Extract_calcore.v"),
+            os.path.join(vplib.VERIF, "ocaml", "Extract_%s.v" % mod),
+            os.path.join(vplib.VERIF, "ocaml", "glue.ml.inc"),
             os.path.join(vplib.COQDIR, "Gen", "LayoutGen.v")]
-    deps += glob.glob(os.path.join(vplib.COQDIR, "Cal", "TermsModel.v"))
-    deps += glob.glob(os.path.join(vplib.COQDIR, "Cal", "AddModel.v"))
-    if os.path.exists(exe) and all(os.path.getmtime(d) <= os.path.getmtime(exe) for d in deps if os.path.exists(d)):
+    deps += glob.glob(os.path.join(vplib.COQDIR, "Cal", "*.v"))
+    if mod != "calcore":
+        deps += glob.glob(os.path.join(vplib.COQDIR, "Lin", "Lu*.v")) + glob.glob(os.path.join(vplib.COQDIR, "Lin", "MatL.v"))
+        deps += glob.glob(os.path.join(vplib.COQDIR, "Base", "*.v"))
+    else:
+        deps = [d for d in deps if os.path.basename(d) in ("TermsModel.v", "AddModel.v", "LayoutGen.v",
+                                                           name + ".ml", "Extract_%s.v" % mod)]
+
+    def fresh():
+        return os.path.exists(exe) and all(os.path.getmtime(d) <= os.path.getmtime(exe) for d in deps if os.path.exists(d))
+    if fresh():
         return exe
-    return ctx.ocaml_driver(name)
+    lock = open(os.path.join(vplib.VERIF, "ocaml", ".lock"), "w")
+    fcntl.flock(lock, fcntl.LOCK_EX)
+    try:
+        if not fresh():
+            vplib.sh(["bash", os.path.join(vplib.VERIF, "bin", "setup"), "--ocaml-only", mod], timeout=1800)
+    finally:
+        fcntl.flock(lock, fcntl.LOCK_UN)
+        lock.close()
+    if not os.path.exists(exe):
+        raise vplib.BuildError("extracted driver %s is not built" % name)
+    return exe
